@@ -212,6 +212,72 @@ def _special(_):
     return n, res, {("special", n)}
 
 
+NS_ALPHABET = [
+    "https://ns.dataone.org/service/types/v2.0#SystemMetadata", "ns://other", "http://ns.test/v1 # sysmeta", "key: value", "a: b: c",
+    " leading", "trailing ", "'single'", '"double"', "it's", "1", "1.0", "007", "1e3", "true", "True", "null", "~", "yes", "no",
+    "[a, b]", "{a: b}", "- item", "? q", "| block", "> folded", "&anchor", "*alias", "!tag", "%TAG", "@at", "`tick`", "#hash", "a#b",
+    "---", "...", "\u00e9\u00e8 m\u00e9ta", "\u6f22\u5b57", "tab\there", "back\\slash", "x" * 300, "2001-12-14", "0x1F", "1_000", ":", "-", "a,b", "",
+]
+
+
+def _namespaces(k):
+    """Store created with one namespace of NS_ALPHABET (strings that are significant to a YAML parser or that a YAML writer
+    must quote) and re-opened with EVERY namespace of the alphabet: accepted exactly for the creation value, nothing
+    created or modified either way, and the default-format document stored before stays retrievable."""
+    from hashstore.filehashstore import FileHashStore
+    ns = NS_ALPHABET[k]
+    res = []
+    n = 0
+    parent = os.path.join(common.scratch(), "c14-ns-%d" % k)
+    shutil.rmtree(parent, ignore_errors=True)
+    os.makedirs(parent)
+    path = os.path.join(parent, "store")
+    inp = os.path.join(common.scratch(), "c14ns_in_%d" % os.getpid())
+    with open(inp, "wb") as f:
+        f.write(DATA["x"])
+    base = (3, 2, "SHA-256", ns)
+    try:
+        s = FileHashStore(props(path, base))
+        s.store_object("pid-x", inp)
+        s.store_metadata("pid-x", inp)
+    except Exception as e:  # noqa: BLE001
+        if ns == "":
+            return 1, [], set()  # an empty namespace may be refused at creation
+        return 1, [({"kind": "namespace", "what": "a store cannot be created / used with this namespace (%s)" % type(e).__name__},
+                    {"namespace": ns})], set()
+    before = snap_parent(parent)
+    for ns2 in NS_ALPHABET:
+        n += 1
+        try:
+            s2 = FileHashStore(props(path, (3, 2, "SHA-256", ns2)))
+            accepted = True
+        except Exception:  # noqa: BLE001
+            accepted, s2 = False, None
+        what = None
+        if ns2 == ns and not accepted:
+            what = "reopening with the creation namespace is refused"
+        elif ns2 != ns and accepted:
+            what = "reopening with a different namespace is accepted"
+        after = snap_parent(parent)
+        if what is None and after != before:
+            what = "reopening (%s) created or modified files" % ("accepted" if accepted else "refused")
+        if what is None and accepted:
+            try:
+                st = s2.retrieve_metadata("pid-x")
+                if st.read() != DATA["x"]:
+                    what = "the default-format document is not the one stored before reopening"
+                st.close()
+            except Exception as e:  # noqa: BLE001
+                what = "the default-format document is not retrievable after reopening (%s)" % type(e).__name__
+        if what:
+            res.append(({"kind": "namespace", "what": what}, {"creation_namespace": ns, "reopen_namespace": ns2}))
+            shutil.rmtree(parent)
+            os.makedirs(parent)
+            common.restore(parent, before)
+    shutil.rmtree(parent, ignore_errors=True)
+    return n, res, {("ns", k)}
+
+
 def main(tier):
     global TIER
     TIER = tier
@@ -229,6 +295,13 @@ def main(tier):
         nspecial = cnt
         for sig, det in res:
             rep.violation(sig, det)
+    nns = 0
+    for cnt, res, cl in pmap(_namespaces, list(range(len(NS_ALPHABET)))):
+        n += cnt
+        nns += cnt
+        for sig, det in res:
+            rep.violation(sig, det)
+    rep.coverage["namespace_pairs"] = nns
     nontrivial = {c for c in classes if not c[1]}
     rep.coverage.update({
         "evaluations": n, "distinct_nontrivial": len(nontrivial) + nspecial, "exhaustive": True,
@@ -238,7 +311,8 @@ def main(tier):
                 "accepted, the snapshot of the store's PARENT directory must be unchanged; distinct non-trivial = (populated, "
                 "accepted, encoding, which coordinates differ) for differing configurations, plus the special cases "
                 "(unsupported / re-spelled algorithms, missing / None / extra keys, non-integers, store data without "
-                "hashstore.yaml)" % ("all 200" if tier == "thorough" else "all that differ in at most 2 coordinates"),
+                "hashstore.yaml); plus all ordered pairs (creation, reopening) of a %d-string namespace alphabet (strings a YAML "
+                "parser reads as something else or a YAML writer must quote)" % (("all 200" if tier == "thorough" else "all that differ in at most 2 coordinates"), len(NS_ALPHABET)),
     })
     return rep.finish([{"creation": [3, 2, "SHA-256", NSS[0]], "reopen": [3, "2", "SHA-256", NSS[1]]}])
 
